@@ -30,23 +30,32 @@ type chanList struct {
 	// amount. This helps distinguish otherwise identical
 	// server/client muxes
 	offset uint32
+
+	// dropped is set by dropAll: the mux loop has exited and channels
+	// added from now on will never be serviced or closed by it.
+	dropped bool
 }
 
 // add stores the given channel and assigns its localId while holding the
 // lock, so that getChan can never return a channel whose localId is not yet
-// initialized.
-func (c *chanList) add(ch *channel) {
+// initialized. It reports false, without storing the channel, if dropAll
+// was already called.
+func (c *chanList) add(ch *channel) bool {
 	c.Lock()
 	defer c.Unlock()
+	if c.dropped {
+		return false
+	}
 	for i := range c.chans {
 		if c.chans[i] == nil {
 			c.chans[i] = ch
 			ch.localId = uint32(i) + c.offset
-			return
+			return true
 		}
 	}
 	c.chans = append(c.chans, ch)
 	ch.localId = uint32(len(c.chans)-1) + c.offset
+	return true
 }
 
 // getChan returns the channel for the given ID.
@@ -83,6 +92,7 @@ func (c *chanList) dropAll() []*channel {
 		r = append(r, ch)
 	}
 	c.chans = nil
+	c.dropped = true
 	return r
 }
 
